@@ -49,9 +49,12 @@ import Pog.Lemmas.Fresh
     property_names_valid_partial           valid non-keyword identifiers (and client.py compiles) when every tag has an ASCII alphanumeric
     property_name_never_config             no property is ever named `config` (RESERVED_NAMES, regenerated table)
     property_names_pairwise_distinct_partial   distinct for ASCII tags; ✗ `aé` / `a`
-    ✗ private_attr_base_url_counterexample (F64)   a tag with module `base_url` stores its client in `self._base_url`
+    property_names_avoid_dunder (F64 repaired)   for every input never `_base_url`, `__aenter__`, `__aexit__`, `__init__`
+    private_attr_never_own_member (F64 repaired)   for every input `self._<attr>` is none of `config`, `transport`, `_base_url`, a method, `__init__`;
+                                           `fixed_attrs_assigned_once`; `private_attr_base_url_former_witness`: module `base_url` → `self._base_url_`
+    private_attr_names_distinct_from_public_partial   `_<attr>` is no property name when every tag is ASCII or has an ASCII alphanumeric; ✗ `ké` / `_K`
 -/
--- INDEX Pog.ClientGenProps: property_names_valid_partial, property_names_valid_counterexample, property_name_never_config, property_names_avoid_dunder_partial, property_named_base_url_counterexample, property_names_pairwise_distinct_partial, property_names_pairwise_distinct_counterexample, private_attr_names_distinct_from_public_partial, private_attr_base_url_counterexample, private_attr_base_url_iff, private_attr_counterexample
+-- INDEX Pog.ClientGenProps: property_names_valid_partial, property_names_valid_counterexample, property_name_never_config, property_names_avoid_dunder, property_named_base_url_former_witness, property_names_pairwise_distinct_partial, property_names_pairwise_distinct_counterexample, private_attr_never_own_member, fixed_attrs_assigned_once, private_attr_names_distinct_from_public_partial, private_attr_base_url_former_witness, private_attr_counterexample
 namespace Pog.C20
 open Pog
 
